@@ -113,6 +113,22 @@ def guarded(fn, limit):
         signal.signal(signal.SIGALRM, old)
 
 
+_SECOND_LOOKS = [0]
+
+
+def patient(fn):
+    """fn() under PASS_LIMIT; "does not terminate" is only concluded after a second, longer look (the machine is
+    shared: a stall of the whole process has been observed to exhaust the limit on a three-node integrand).  At most
+    two second looks per run: a pass that really hangs is reported without them from then on."""
+    try:
+        return guarded(fn, PASS_LIMIT)
+    except Hung:
+        if _SECOND_LOOKS[0] >= 2:
+            raise
+        _SECOND_LOOKS[0] += 1
+        return guarded(fn, 3 * PASS_LIMIT)
+
+
 _FLOAT_HANGS = {}
 _PASS_HANGS = {}
 
@@ -181,7 +197,7 @@ def pass_cmp_check(e):
             h = Hung(f"do_comparison_check does not return: float({str(x)[:60]}) in CheckComparisons.power recurses without end")
             h.exponent = type(x).__name__
             raise h
-    return guarded(f, PASS_LIMIT)
+    return patient(f)
 
 
 REAL_MODE_MESSAGES = ("Unexpected imag in real expression.", "Unexpected complex value in real expression.")
@@ -198,7 +214,7 @@ def pass_remove_complex(e):
                 raise Rejected(f"ValueError: {exc}") from None
             raise
 
-    return guarded(f, PASS_LIMIT)
+    return patient(f)
 
 
 rpl.PASSES["cmp_check"] = pass_cmp_check
@@ -227,6 +243,15 @@ def make_pool(sl, seed):
                     used.add(z)
                     break
             pool.values[1][name][c] = Cx(z[0], z[1])
+    # a real terminal never has the value of a literal of the slice: of the conditions lt(v, 2) and lt(2, v) one
+    # holds in every environment, so that each branch of a conditional is the selected one in some program
+    litvals = {Cx.of(v) for _, v in sl.lits}
+    for env in pool.values:
+        for name, shape in sl.terminals:
+            if name in REAL_NAMES:
+                for c in comps(shape):
+                    while env[name][c] in litvals:
+                        env[name][c] = Cx(env[name][c].re + 10)
     return pool
 
 
